@@ -43,6 +43,12 @@ type ListSpec struct {
 	High int    `json:"high"` // what a selected element carries above the width: 0 random bits, 1 all ones, 2 only bit w, 3 only bit 63, 4 one random bit
 	Mod  int    `json:"mod"`  // selected: Mod > 0: indexes i with bit i%Mod of Mask set; Mod == 0: only index Mask
 	Mask vk.U64 `json:"mask"`
+	// runs of values that are entirely zero (no low bits, no high bits): value i is zero when ZPer > 0 and (i+ZOff) % ZPer < ZRun.
+	// A loop that skips aligned blocks of empty values (16, 24, 32 ... at a time) meets blocks that end on a word boundary with
+	// non-empty values before them.
+	ZPer int `json:"zper,omitempty"`
+	ZRun int `json:"zrun,omitempty"`
+	ZOff int `json:"zoff,omitempty"`
 }
 
 func (s ListSpec) wide(i int) bool {
@@ -90,6 +96,9 @@ func (s ListSpec) Expand(w int32) []uint64 {
 				hi = 1 << 63
 			}
 			lo |= hi
+		}
+		if s.ZPer > 0 && (i+s.ZOff)%s.ZPer < s.ZRun {
+			lo = 0
 		}
 		vals[i] = lo
 	}
@@ -738,6 +747,20 @@ func genList(t *rapid.T, maxN int) *ListSpec {
 		p := widePatterns[gen.Uniform(t, len(widePatterns), "pattern")]
 		s.Mod, s.Mask = p.mod, vk.U64(p.mask)
 	}
+	if gen.Chance(t, 1, 3, "zruns") { // runs of all-zero values
+		if gen.Chance(t, 1, 2, "zaligned") {
+			s.ZPer = []int{16, 32, 48, 64, 96, 128, 24, 12, 8}[gen.Uniform(t, 9, "zper")] * (1 + gen.Uniform(t, 3, "zmul"))
+			s.ZRun = []int{16, 32, 8, 24, 64, 4}[gen.Uniform(t, 6, "zrun")]
+			s.ZOff = []int{0, 16, 32, 8, 1, 63}[gen.Uniform(t, 6, "zoff")]
+		} else {
+			s.ZPer = 2 + gen.Uniform(t, 300, "zper2")
+			s.ZRun = 1 + gen.Uniform(t, s.ZPer, "zrun2")
+			s.ZOff = gen.Uniform(t, s.ZPer, "zoff2")
+		}
+		if s.ZRun >= s.ZPer {
+			s.ZRun = s.ZPer - 1
+		}
+	}
 	return s
 }
 
@@ -900,6 +923,16 @@ func TestGrid(t *testing.T) {
 				rot++
 				spec := &ListSpec{N: n, Key: vk.U64(vk.Mix(uint64(n)*131 + uint64(w))), Low: rot % 3 % 2, High: rot % 5, Mod: pt.mod, Mask: vk.U64(pt.mask)}
 				checker.Run(t, Case{Op: "join", W: w, List: spec, Class: "grid-octaves"})
+			}
+		}
+	}
+	// runs of all-zero values among non-zero ones (a loop that skips aligned blocks of empty values): every width, block
+	// periods 16..192, runs that end on and off a word boundary, short lists that end inside or right after a run
+	for _, w := range widths {
+		for zi, z := range [][3]int{{16, 8, 0}, {32, 16, 16}, {32, 16, 0}, {48, 16, 32}, {48, 32, 16}, {64, 32, 32}, {64, 16, 48}, {96, 64, 32}, {128, 16, 112}, {192, 96, 96}, {24, 12, 12}, {40, 24, 16}, {17, 16, 1}, {33, 32, 0}} {
+			for _, n := range []int{z[0], z[0] + 1, 2 * z[0], 2*z[0] + 17, 5*z[0] - 1, 300 + zi} {
+				spec := &ListSpec{N: n, Key: vk.U64(vk.Mix(uint64(n)*151 + uint64(w)*7 + uint64(zi))), Low: 1 - zi%2, High: zi % 5, Mod: 1, Mask: vk.U64(zi % 2), ZPer: z[0], ZRun: z[1], ZOff: z[2]}
+				checker.Run(t, Case{Op: "join", W: w, List: spec, Class: "grid-zero-runs"})
 			}
 		}
 	}
